@@ -36,6 +36,37 @@ func (c *Ctx) srcClass(src string) string {
 	case "resolvedInfo.patternProperties":
 		return "applicator-child"
 	}
+	// any other *Schema field of the side table that is filled only with results of the reference resolver is a reference hop
+	if strings.HasPrefix(src, "resolvedInfo.") {
+		if rm := c.resolverModel("C07/R1"); rm != nil {
+			field := strings.TrimPrefix(src, "resolvedInfo.")
+			n, ok := 0, true
+			for _, fn := range c.P.Funcs {
+				core.EachInstr(fn, func(i ssa.Instruction) {
+					st, isSt := i.(*ssa.Store)
+					if !isSt {
+						return
+					}
+					fa, isFa := st.Addr.(*ssa.FieldAddr)
+					if !isFa || c.fieldName(fa.X.Type(), fa.Field) != "resolvedInfo."+field {
+						return
+					}
+					n++
+					ex, isEx := st.Val.(*ssa.Extract)
+					if !isEx || ex.Index != 0 {
+						ok = false
+						return
+					}
+					if call, isCall := ex.Tuple.(*ssa.Call); !isCall || call.Call.StaticCallee() != rm.refFn {
+						ok = false
+					}
+				})
+			}
+			if n > 0 && ok {
+				return "applicator-inplace"
+			}
+		}
+	}
 	if strings.HasPrefix(src, "Schema.") {
 		return fieldClass[strings.TrimPrefix(src, "Schema.")]
 	}
@@ -980,4 +1011,100 @@ func sameFieldLoad(a, b ssa.Value) bool {
 	fa, ok1 := la.X.(*ssa.FieldAddr)
 	fb, ok2 := lb.X.(*ssa.FieldAddr)
 	return ok1 && ok2 && fa.Field == fb.Field && fa.X == fb.X
+}
+
+func init() {
+	p := Properties["C07"]
+	p.Rules = append(p.Rules, Rule{"C07/no-applicator-skipped", ruleC07NoApplicatorSkipped})
+	p1 := Properties["C01"]
+	p1.Rules = append(p1.Rules, Rule{"C01/no-applicator-skipped", func(c *Ctx) { runAs(c, "C01/no-applicator-skipped", "C07/no-applicator-skipped", ruleC07NoApplicatorSkipped) }})
+}
+
+// which other keywords may legitimately decide whether (or from where) a keyword's subschemas are applied
+var applicatorCross = map[string][]string{
+	"Items":                 {"ItemsArray", "PrefixItems"},
+	"AdditionalItems":       {"ItemsArray", "Items"},
+	"ItemsArray":            {},
+	"Then":                  {"If"},
+	"Else":                  {"If", "Then"},
+	"AdditionalProperties":  {"Not", "Properties", "PatternProperties"},
+	"PatternProperties":     {"Properties"},
+	"UnevaluatedItems":      {},
+	"UnevaluatedProperties": {},
+}
+
+// A keyword that holds subschemas is applied whenever it is present: the only
+// conditions under which its evaluation site can be skipped are its own
+// presence, the instance's kind, the draft, the per-element bookkeeping and
+// the keywords it is defined in terms of - never the value of an unrelated keyword
+// (a "fast path" that skips `contains` when minContains is 0 also skips its annotations).
+func ruleC07NoApplicatorSkipped(c *Ctx) {
+	const rule = "C07/no-applicator-skipped"
+	m := c.EvalModel(rule)
+	if m == nil {
+		return
+	}
+	fields := c.SchemaFields(rule)
+	n := 0
+	for _, s := range m.Sites {
+		var own []string
+		for _, src := range s.SchemaSrc {
+			if strings.HasPrefix(src, "Schema.") {
+				own = append(own, strings.TrimPrefix(src, "Schema."))
+			}
+			if src == "resolvedInfo.patternProperties" {
+				own = append(own, "PatternProperties")
+			}
+			if strings.HasPrefix(src, "resolvedInfo.resolved") || src == "anchorInfo.schema" || strings.HasPrefix(src, "resolvedInfo.dynamic") {
+				own = append(own, "Ref", "DynamicRef")
+			}
+		}
+		if len(own) == 0 {
+			continue
+		}
+		allowed := map[string]bool{}
+		for _, o := range own {
+			allowed[o] = true
+			for _, x := range applicatorCross[o] {
+				allowed[x] = true
+			}
+		}
+		n++
+		// guards of the site, and of the place where its enclosing closure runs
+		var bad []string
+		var walk func(ins ssa.Instruction)
+		walk = func(ins ssa.Instruction) {
+			for _, g := range skipGuards(ins) {
+				var other string
+				for _, f := range fields {
+					if !allowed[f.Name] && c.mentionsField(g.Cond, "Schema."+f.Name, 5) {
+						other = f.Name
+					}
+				}
+				if other == "" {
+					continue
+				}
+				bad = append(bad, fmt.Sprintf("%s (at %s)", other, c.pos(g.At)))
+			}
+			fn := ins.Parent()
+			if fn != m.E && fn.Parent() != nil {
+				core.EachInstr(fn.Parent(), func(j ssa.Instruction) {
+					if call, ok := j.(ssa.CallInstruction); ok {
+						for _, a := range append([]ssa.Value{call.Common().Value}, call.Common().Args...) {
+							for _, src := range traceSources(a) {
+								if mc, ok := src.(*ssa.MakeClosure); ok && mc.Fn == fn {
+									walk(j)
+								}
+							}
+						}
+					}
+				})
+			}
+		}
+		walk(s.siteInstr())
+		key := s.key()
+		c.R.Check(len(bad) == 0, rule, key, c.pos(s.siteInstr()), fmt.Sprintf("%v is applied whenever it is present (skippable only by its own presence, kind, draft and bookkeeping tests)", own),
+			fmt.Sprintf("the evaluation of %v can be skipped depending on the unrelated keyword(s) %v: the keyword's verdict and the annotations it would record (for unevaluated*) are lost for those schemas", own, uniq(bad)))
+	}
+	c.R.Floor(rule, "evaluation sites", n, 20)
 }
